@@ -383,12 +383,6 @@ func (vm *Type) Run(retResult bool) (value.Type, error) {
 		case bytecode.RET:
 			val := vm.fetch(instr.Src0(), instr.Src0Addr(), m, ds)
 
-			f, ok := val.ToFunction()
-			if ok && f.Frame != nil {
-				frame := slices.Clone(*f.Frame)
-				val.SetFrame(&frame)
-			}
-
 			nip := m.IP()
 			if nip == nil {
 				m.ResetSP()
@@ -622,6 +616,8 @@ func deleteContext(ctxp *context, freeList *list.List) {
 	})
 
 	ctxp.children.Clear()
+	// the calls in flight in this context never return
+	ctxp.m.Abandon()
 
 	freeList.PushFront(ctxp)
 }
